@@ -212,11 +212,6 @@ func (s *SpokFile) run(stream iostream.IOStream, runner shell.Runner, force bool
 
 	verifhook.At("cache.loaded")
 
-	// Whether or not we want to update the cache after running e.g.
-	// if there were no file dependencies to update or if the task
-	// did not succeed
-	updateCache := true
-
 	for _, taskToRun := range runOrder {
 		verifhook.At("task.begin", "task", taskToRun.Name)
 		// Gather up all the files to be hashed into a single slice
@@ -235,46 +230,52 @@ func (s *SpokFile) run(stream iostream.IOStream, runner shell.Runner, force bool
 
 		s.logger.Debug("Task %s depends on %d files", taskToRun.Name, len(toHash))
 
-		// If the task did not declare any file dependencies, let's not
-		// update the cache, this way it will always run
-		if len(toHash) == 0 {
-			updateCache = false
-		}
-
-		var hasher hash.Hasher
-		if force {
-			hasher = hash.AlwaysRun{}
-		} else {
-			hasher = hash.New()
-		}
-
+		// The digest is always calculated for real, even with force, so that a forced
+		// run can be recorded in the cache like any other
 		hashStart := time.Now()
-		currentDigest, err := hasher.Hash(toHash)
+		currentDigest, err := hash.New().Hash(toHash)
 		if err != nil {
-			return nil, err
+			if !force {
+				return nil, err
+			}
+			// A forced run goes ahead regardless, there is just no digest to record
+			currentDigest = ""
 		}
 		s.logger.Debug("Calculated digest of %d files in %v", len(toHash), time.Since(hashStart))
 		verifhook.At("task.hashed", "task", taskToRun.Name)
 
 		// By the time we get here, we know the cache file will exist (even if it has no digests)
 		// so we can go ahead and load as normal. If a task is not in the cache, it means it was
-		// added to the spokfile since we last ran a cache, so add it to the current cachedState
-		cachedDigest, ok := cachedState.Get(taskToRun.Name)
-		if !ok {
-			cachedState.Set(taskToRun.Name, "")
-		}
+		// added to the spokfile since we last ran a cache, which is the same as an empty digest
+		cachedDigest, _ := cachedState.Get(taskToRun.Name)
 
 		s.logger.Debug("Task %s current checksum: %.15s cached checksum: %.15s", taskToRun.Name, currentDigest, cachedDigest)
 
 		var result shell.Results
 		skipped := false
 
+		// If the task did not declare any file dependencies (or none of them match a file)
+		// there is nothing to compare, this way it will always run
+		hasFiles := len(toHash) != 0
+
 		switch {
-		case cachedDigest == "" || currentDigest != cachedDigest:
-			// The digest is either empty or out of date, in which case the action to be taken is the same
-			// update the cache digest and run the task
-			if updateCache {
-				cachedState.Set(taskToRun.Name, currentDigest)
+		case !force && hasFiles && cachedDigest != "" && currentDigest == cachedDigest:
+			// This task has been run before and its digest has not changed, therefore
+			// we don't need to run it again
+			skipped = true
+			verifhook.At("task.skip", "task", taskToRun.Name)
+
+		default:
+			// The digest is either empty or out of date (or we're forced), in which case the action
+			// to be taken is the same: run the task and record the new digest only once it has succeeded.
+			// The old digest is forgotten before the task starts so that a failed or interrupted run
+			// can never be mistaken for an up to date one later. Each task's entry is written as soon
+			// as it is known, independently of what happens to the other tasks in this run.
+			if cachedDigest != "" {
+				cachedState.Set(taskToRun.Name, "")
+				if err := cachedState.Dump(cachePath); err != nil {
+					return nil, err
+				}
 			}
 			verifhook.At("task.before-exec", "task", taskToRun.Name)
 			result, err = taskToRun.Run(runner, stream, s.Env())
@@ -282,28 +283,17 @@ func (s *SpokFile) run(stream iostream.IOStream, runner shell.Runner, force bool
 				return nil, fmt.Errorf("Task %q encountered an error: %w", taskToRun.Name, err)
 			}
 			verifhook.At("task.after-exec", "task", taskToRun.Name)
-
-		case currentDigest == cachedDigest:
-			// This task has been run before and its digest has not changed, therefore
-			// we don't need to run it again
-			skipped = true
-			updateCache = false
-			verifhook.At("task.skip", "task", taskToRun.Name)
+			if hasFiles && currentDigest != "" && result.Ok() {
+				s.logger.Debug("Updating cached state for task %s", taskToRun.Name)
+				cachedState.Set(taskToRun.Name, currentDigest)
+				if err := cachedState.Dump(cachePath); err != nil {
+					return nil, err
+				}
+			}
 		}
 
 		// Gather up all the task results
 		results = append(results, task.Result{CommandResults: result, Task: taskToRun.Name, Skipped: skipped})
-	}
-
-	// Only update the cache if force was not set, the task declares file dependencies
-	// and the task run was successful
-	if !force && updateCache && results.Ok() {
-		s.logger.Debug("Updating cached state")
-		verifhook.At("cache.before-dump")
-		if err := cachedState.Dump(cachePath); err != nil {
-			return nil, err
-		}
-		verifhook.At("cache.after-dump")
 	}
 
 	return results, nil
